@@ -132,6 +132,9 @@ fn main() {
         .and_then(|s| Tier::parse(s))
         .or_else(|| std::env::var("VERIF_TIER").ok().and_then(|s| Tier::parse(&s)))
         .unwrap_or(Tier::Quick);
+    if tier == Tier::Thorough && std::env::var("VERIF_EXTRA_SEEDS").is_err() {
+        std::env::set_var("VERIF_EXTRA_SEEDS", "3");
+    }
     let t0 = std::time::Instant::now();
     let units = check.units(tier);
     let jobs = std::env::var("VERIF_JOBS")
